@@ -80,6 +80,24 @@ def run(ctx):
         os.makedirs(d)
     cases = []
     seen = set()
+    # corpus run first: every tool x every seed class on a command that draws; graph arguments with several
+    # modifiers; transformations that sample an explicit random graph
+    shuf_in = b'p cnf 6 5\n1 -2 0\n2 3 -4 0\n-1 5 0\n6 -3 0\n4 5 6 0\n'
+    for seed in SEEDS + [rng.randint(-10 ** 6, 10 ** 6)]:
+        cases.append(('cnfgen', ['--seed', seed, 'randkcnf', 3, 8, 6], b'', seed))
+        cases.append(('pbgen', ['--seed', seed, 'randkxor', 2, 6, 4], b'', seed))
+        cases.append(('cnfshuffle', ['--seed', seed], shuf_in, seed))
+        cases.append(('cnfgen', ['-S', seed, 'kcolor', 3, 'gnp', 7, '.4', 'plantclique', 3, 'addedges', 3, 'splitedges', 2], b'', seed))
+        cases.append(('cnfgen', ['-S', seed, 'php', 'glrp', 4, 4, '.5', 'plantbiclique', 2, 2, 'addedges', 2], b'', seed))
+        cases.append(('cnfgen', ['--seed', seed, 'php', 3, 2, '-T', 'xorcomp', 'glrd', 6, 4, 2], b'', seed))
+        cases.append(('cnfgen', ['--seed', seed, 'php', 3, 2, '-T', 'majcomp', 'glrm', 6, 5, 9], b'', seed))
+        cases.append(('cnfgen', ['--seed', seed, 'op', 3, '-T', 'shuffle', '-T', 'xorcomp', 9, 2], b'', seed))
+    for c in cases:
+        seen.add((c[0], tuple(map(str, c[1])), c[2]))
+        ctx.tally('tool', c[0])
+        ctx.tally('seed class', c[3] if c[3] in SEEDS else 'random')
+        ctx.tally('sub-command', 'corpus')
+    ncases += len(cases)
     while len(cases) < ncases:
         tool = rng.choice(['cnfgen'] * 6 + ['pbgen'] * 2 + ['cnfshuffle'])
         seed = rng.choice(SEEDS + [rng.randint(-10 ** 6, 10 ** 6)])
